@@ -457,7 +457,9 @@ def run(outcome, harnesses):
         "functions_encoded": ["prelude: array.push/pop/len/is_empty/swap/remove/clear/find/contains/filled, Clone for array, Index, for-in (bytecode)",
                               "vm::step arms GetIndex SetIndex ArrayPush ArrayPushIntImm ArrayPop ArrayLength ConstructArray DeconstructArray (Kani)"],
         "bounds": "S: %d sequences (quick: curated; thorough: all of length <= 2 over 13 operations from initial lengths 0 and 2, all of length 3 "
-                  "over {push,pop,get,set,swap,remove}); elements/indices symbolic 64-bit. K: arrays of length <= 3. Outside: longer sequences; "
+                  "over {push,pop,get,set,swap,remove}); elements/indices symbolic 64-bit. K: arrays of length <= 3. Independence: %d templates over arrays of "
+                  "arrays (array.filled of a row the caller keeps, n = 1..3; mutation of siblings; Clone of a nested array) with symbolic elements, "
+                  "observations must equal independent-deep-copy semantics. Outside: longer sequences; other operations on "
                   "arrays of heap values; iteration with mutation." % (len(fns), len(i_samples)),
         "queries": stats["queries"] + kfrag["vccs_generated"],
         "solver_s": round(stats["solver_s"] + kfrag["solver_s"], 2),
